@@ -21,7 +21,7 @@ import pickle as _pickle
 import sys
 from collections import deque
 
-REPO = os.environ.get('VERIF_REPO', '/repo')
+REPO = (os.environ.get('VERIF_REPO') or '/repo')
 if REPO not in sys.path:
     sys.path.insert(0, REPO)
 
